@@ -782,3 +782,6 @@ def run(ctx):
     from .c09 import r5b_completion_flag
 
     r5b_completion_flag(ctx, 'C01.R10')
+    from .shared import queue_put_retries_until_done
+
+    queue_put_retries_until_done(ctx, 'C01.R10')
